@@ -132,6 +132,7 @@ pub(crate) use vcover;
 
 pub mod model;
 pub mod api;
+pub mod env;
 pub mod refcnt;
 #[cfg(not(kani))]
 pub mod replay;
